@@ -21,7 +21,7 @@ var c06Units = []string{"a", "e", "Z", "E", "0", "9", " ", "\t", "\n", "\r", ";"
 	"\xc3", "é", "₽", "🍕", "{"}
 
 var c06Fragments = []string{"2001-01-01", "2001-1", " ", "  ", "    ", "\t", "\n", "\r\n", "a:b", "a:b c", "(code", "(c)", "\"quoted", "\"q r\"", "[a:b", "[a:b]", "(a:b)", "1,2.3,4", "1e9", "1E999999999", "1e-999999999",
-	"9999999999999999999999999999999999999999", "-", "+", "@", "@@", "=", "==", "; t:v, u:", ";", "|", "*", "!", "$", "$5", "5 USD", "include ", "account ", "commodity ", "P ", "Y 99999", "D ", "format ", "\xff\xfe", "\x00", "\x1b", "\ufeff", "é", "🍕", "x"}
+	"9999999999999999999999999999999999999999", "-", "+", "@", "@@", "=", "==", "; t:v, u:", ";", "|", "*", "!", "$", "(", ")", "[", "]", "\"", ":", "$5", "5 USD", "include ", "account ", "commodity ", "P ", "Y 99999", "D ", "format ", "\xff\xfe", "\x00", "\x1b", "\ufeff", "é", "🍕", "x"}
 
 const c06K = 512 // allowed loop iterations per input byte (plus a constant for 64 bytes)
 
@@ -358,6 +358,33 @@ func checkC06(c *core.Ctx) {
 		pump(f, fmt.Sprintf("%q^n", f))
 		if c.Expired() {
 			return
+		}
+	}
+	// 3b. the same pumped fragment inside a line of each kind: after an indent
+	// (posting position), after a date (header), after an account (amount
+	// position), in a comment, each with and without an account behind it
+	contexts := [][2]string{{"    ", ""}, {"    ", "a:b"}, {"    ", "  $5"}, {"2001-01-01 ", ""}, {"2001-01-01 ", " | n"}, {"    a:b  ", ""}, {"    a:b  ", " USD"}, {"    ; ", ""}, {"account ", ""}, {"include ", ""}}
+	c.Bound("pumped inputs in context", fmt.Sprintf("every fragment f^n at the largest size between %d (prefix, suffix) pairs of one line", len(contexts)))
+	for i, f := range c06Fragments {
+		if strings.ContainsAny(f, "\n") || len(f) == 0 {
+			continue
+		}
+		for k, cx := range contexts {
+			if !c.MineKey(int64(i*len(contexts) + k + 3)) {
+				continue
+			}
+			text := cx[0] + strings.Repeat(f, max1(maxSize/len(f))) + cx[1] + "\n"
+			fam := fmt.Sprintf("%q + %q^n + %q", cx[0], f, cx[1])
+			cas := c06Case{Size: len(text), Family: fam, Feature: "lexer"}
+			c.Announce(cas)
+			c.Watch(cas)
+			c06Lexer(c, text, cas)
+			c.Unwatch()
+			e.allFeatures(c, text, false, fam)
+			c.Res.Nontrivial++
+			if c.Expired() {
+				return
+			}
 		}
 	}
 	for i, f := range c06Fragments {
